@@ -99,4 +99,59 @@ Section S.
     - apply (Hset a n); [exact H|]. destruct (process_message_fd_sets _ _ _ _ _ _ _ H2) as [A B].
       apply (fd_good_same n); [exact A|exact B|eapply IH; eauto].
   Qed.
+
+  (* ---- the watch channel's shape is an invariant of every reachable state (C13) ---- *)
+  Lemma process_delta_watch now n x n' evs : process_delta now n x = Ok (n', evs) -> nd_prev n' = nd_prev n /\ nd_watch n' = nd_watch n.
+  Proof.
+    unfold process_delta. destruct (cluster_apply_delta now (nd_cs n) x) as [[[cs reset] evs0]| |]; cbn [rmap]; try discriminate.
+    intros [= <- _]. destruct (reset && cf_has_cb (nd_cfg n)); auto.
+  Qed.
+
+  Lemma process_message_watch now n m ord n' reply evs :
+    process_message zc now n m ord = Ok (n', reply, evs) -> nd_prev n' = nd_prev n /\ nd_watch n' = nd_watch n.
+  Proof.
+    unfold process_message. intros Hrun.
+    destruct m as [cl dg|dg x|x|].
+    - destruct (negb _); [injection Hrun as <- _ _; auto|].
+      destruct (P_MAX_UDP <? _); [discriminate|].
+      destruct (compute_delta zc _ dg _ _ ord); cbn [rmap] in Hrun; try discriminate.
+      injection Hrun as <- _ _. destruct (report_heartbeats_fields now dg (update_self_heartbeat n)) as (_ & A & B & _). auto.
+    - destruct (process_delta now _ x) as [[n2 evs2]| |] eqn:Hpd; cbn [rbind] in Hrun; try discriminate.
+      destruct (compute_delta zc _ dg _ _ ord); cbn [rmap] in Hrun; try discriminate.
+      injection Hrun as <- _ _. destruct (process_delta_watch _ _ _ _ _ Hpd) as [F G].
+      destruct (report_heartbeats_fields now dg (update_self_heartbeat n)) as (_ & A & B & _). cbv zeta in A, B.
+      rewrite F, G. auto.
+    - destruct (process_delta now _ x) as [[n2 evs2]| |] eqn:Hpd; cbn [rmap] in Hrun; try discriminate.
+      injection Hrun as <- _ _. cbn [fst]. destruct (process_delta_watch _ _ _ _ _ Hpd) as [F G]. rewrite F, G. auto.
+    - injection Hrun as <- _ _. auto.
+  Qed.
+
+  Lemma on_own_watch n f : nd_prev (fst (on_own n f)) = nd_prev n /\ nd_watch (fst (on_own n f)) = nd_watch n.
+  Proof. unfold on_own. destruct (nm_get _ _) as [c|]; [|auto]. destruct (f c). auto. Qed.
+
+  Theorem reachable_watch_shape : forall g, reachable zc strict g ->
+    forall a n, node_at g a = Some n -> watch_shape (nd_prev n) (nd_watch n).
+  Proof.
+    induction 1 as [|g g' Hr IH Hstep]; [intros a n H; destruct a; discriminate|].
+    assert (Hset : forall b m m' sent T, node_at g b = Some m -> watch_shape (nd_prev m') (nd_watch m') ->
+              forall a n, node_at (mkG (with_nodes (g_w g) (set_nth (w_nodes (g_w g)) b m')) sent T) a = Some n -> watch_shape (nd_prev n) (nd_watch n)).
+    { intros b m m' sent T Hb Hm' a n Hn. unfold node_at in *. cbn [g_w with_nodes w_nodes] in Hn.
+      destruct (Nat.eq_dec b a) as [->|Hne].
+      - rewrite (nth_set_nth_same _ _ _ _ Hb) in Hn. injection Hn as <-. exact Hm'.
+      - rewrite nth_set_nth_other in Hn by exact Hne. eapply IH; eauto. }
+    destruct Hstep.
+    - intros a n Hn. unfold node_at in Hn. cbn [g_w with_nodes w_nodes] in Hn.
+      destruct (Nat.lt_ge_cases a (length (w_nodes (g_w g)))) as [Hlt|Hge].
+      + rewrite nth_error_app1 in Hn by exact Hlt. eapply IH; eauto.
+      + rewrite nth_error_app2 in Hn by exact Hge.
+        destruct (a - length (w_nodes (g_w g)))%nat as [|k]; cbn in Hn; [|destruct k; discriminate].
+        injection Hn as <-. reflexivity.
+    - apply (Hset a n); [exact H|]. destruct (on_own_watch n f) as [A B]. rewrite A, B. eapply IH; eauto.
+    - apply (Hset a n); [exact H|]. apply (IH a n H).
+    - apply (Hset a n); [exact H|]. apply (IH a n H).
+    - intros a n Hn. eapply IH; eauto.
+    - apply (Hset a n); [exact H|]. apply (update_nodes_liveness_watch (w_now (g_w g)) n oracle (IH a n H)).
+    - intros a0 n0 Hn. eapply IH; eauto.
+    - apply (Hset a n); [exact H|]. destruct (process_message_watch _ _ _ _ _ _ _ H2) as [A B]. rewrite A, B. eapply IH; eauto.
+  Qed.
 End S.
